@@ -31,6 +31,9 @@ func RandomHistories(w *WorldJSON, seed int64, n, depth int, routers []string, f
 				cfg.Policy.Imp = []string{"", "", "u2"}[rng.Intn(3)]
 				cfg.Policy.Drop = []string{"", "email"}[rng.Intn(2)]
 			}
+			if rng.Intn(3) == 0 {
+				cfg.OIDCErrs = true
+			}
 			if focus == "logout" && rng.Intn(2) == 0 {
 				cfg.Dyn = true
 			}
@@ -73,6 +76,12 @@ func RandomHistories(w *WorldJSON, seed int64, n, depth int, routers []string, f
 			}
 			for s := 0; s < depth; s++ {
 				op, args := g.next()
+				switch op {
+				case "CodeExchange", "Refresh", "ClientCreds", "JWTBearer", "TokenExchange", "Poll":
+					if rng.Intn(7) == 0 {
+						args["gtInQuery"] = true
+					}
+				}
 				if fm := faultMethods[op]; len(fm) > 0 && (rng.Intn(10) == 0 || ((focus == "faults" || focus == "authorize") && rng.Intn(3) == 0)) {
 					// C10: a storage call fails while this request is served
 					args["fault"] = fm[rng.Intn(len(fm))]
@@ -150,6 +159,15 @@ func (g *gen) rightCred(c string) M {
 		return M{"kind": "post", "secret": "right", "key": "none"}
 	}
 	return M{"kind": "basic", "secret": "right", "key": "none"}
+}
+
+// foreignCred: caller c goes for an object of `owner`: its own right credentials, half of the time with the owner's id forged into the body
+func (g *gen) foreignCred(c, owner string) M {
+	cr := g.rightCred(c)
+	if cl, ok := g.w.Clients[c]; ok && (cl.Auth == "basic" || cl.Auth == "post") && owner != "" && owner != c && g.rng.Intn(2) == 0 {
+		return M{"kind": "basic", "secret": "right", "key": "none", "alias": owner}
+	}
+	return cr
 }
 
 func (g *gen) cred(c string) M {
@@ -317,6 +335,10 @@ func (g *gen) next() (string, M) {
 				a["rtype"] = g.pick("", "id_token", "id_token token", "code")
 			case 3:
 				a["uri"] = g.pick("evil", "ucw", "ucx", "ucp", "")
+			case 4:
+				if len(d.idtRaw) > 0 {
+					a["hint"] = M{"kind": g.pick("valid", "expired", "futureiat", "noiat", "wrongkey", "algnone"), "id": g.existing(d.idtRaw, "i99")}
+				}
 			}
 		}
 		return op, a
@@ -340,11 +362,11 @@ func (g *gen) next() (string, M) {
 				ver = g.pick("none", "v1", "v2")
 			case 1:
 				c = g.client()
-				cred = g.rightCred(c)
+				cred = g.foreignCred(c, rn.Client)
 			case 2:
 				cred = g.cred(c)
 			case 3:
-				uri = g.pick("evil", "ucw", "ucw2", "ucx", "")
+				uri = g.pick("evil", "ucnEvil", "ucnEvil", "ucw", "ucw2", "ucx", "")
 			}
 		}
 		return op, M{"caller": c, "cred": cred, "code": code, "uri": uri, "verifier": ver}
@@ -352,13 +374,16 @@ func (g *gen) next() (string, M) {
 		rt := g.existing(d.rtRaw, "f99")
 		c := g.client()
 		cred := g.cred(c)
+		if o := g.ownerOfRT(rt); o != "" && o != c && g.rng.Intn(2) == 0 {
+			cred = g.foreignCred(c, o)
+		}
 		if o := g.ownerOfRT(rt); o != "" && g.rng.Intn(4) != 0 {
 			c, cred = o, g.rightCred(o)
 			if g.rng.Intn(6) == 0 {
 				cred = g.cred(c)
 			}
 		}
-		sc := [][]string{{}, {}, {"openid"}, {"openid", "email"}, {"openid", "profile", "email", "offline_access", "phone"}, {"phone"}, {"openid", "offline_access"}}[g.rng.Intn(7)]
+		sc := [][]string{{}, {}, {"openid"}, {"openid", "email"}, {"openid", "profile", "email", "offline_access", "phone"}, {"phone"}, {"openid", "offline_access"}, {"offline_access"}, {"email", "offline_access"}, {"profile"}}[g.rng.Intn(10)]
 		return op, M{"caller": c, "cred": cred, "rt": rt, "scopes": sc}
 	case "UserInfo":
 		return op, M{"tok": g.tok()}
@@ -385,6 +410,8 @@ func (g *gen) next() (string, M) {
 		t := g.tok()
 		if o := g.ownerOfAT(S(t, "id")); o != "" && g.rng.Intn(3) != 0 {
 			c, cred = o, g.rightCred(o)
+		} else if o != "" && o != c {
+			cred = g.foreignCred(c, o)
 		}
 		return op, M{"caller": c, "cred": cred, "kind": "at", "tok": t, "hint": g.pick("none", "access_token", "refresh_token")}
 	case "Expire":
@@ -448,7 +475,7 @@ func (g *gen) next() (string, M) {
 	default:
 		hint := M{"kind": "none", "id": "none"}
 		if len(d.idtRaw) > 0 && g.rng.Intn(4) != 0 {
-			hint = M{"kind": g.pick("valid", "valid", "expired", "multiaud", "multiaud", "wrongkey", "wrongiss", "algnone"), "id": g.existing(d.idtRaw, "i99")}
+			hint = M{"kind": g.pick("valid", "valid", "expired", "multiaud", "multiaud", "futureiat", "noiat", "wrongkey", "wrongiss", "algnone"), "id": g.existing(d.idtRaw, "i99")}
 		}
 		host := "A"
 		if d.Cfg.Dyn && g.rng.Intn(3) == 0 {
